@@ -269,12 +269,18 @@ def r7(rep, prog):
                      "cannot establish: Column::first_vals does not start with a switch over the ColumnIndex variants", site=b.span):
         return
     arms = {int(v): tg for v, tg in t0["vals"]}
+    ITER = tuple(prog.names(r"(slice::<impl \[T\]>::iter_mut|Iterator::(take|next|enumerate|by_ref)|IntoIterator>?::into_iter)$"))
 
     def writes_output(bi):
         for st in b.stmts(bi):
             d = st["d"]
             if not is_bare(d) and place_local(d) == 3:
                 return True
+            if not is_bare(d) and "*" in str(d):
+                # a store through an item of an iterator over `output`
+                lv = provenance(b, place_local(d), extra_transparent=ITER)
+                if ("param", 3) in lv:
+                    return True
         t = b.term(bi)
         if t["k"] in ("call", "tailcall"):
             for o in t.get("args", []):
